@@ -19,6 +19,7 @@ import (
 	"regexp"
 	"sort"
 	"strconv"
+	"syscall"
 	"strings"
 	"sync"
 	"time"
@@ -154,6 +155,39 @@ var (
 	buildMu sync.Mutex
 )
 
+// claimSlot returns base/vcheck-slot-<i> for the lowest i that is free or whose owner process is gone.
+func claimSlot(base string) (string, error) {
+	for i := 0; i < 64; i++ {
+		dir := filepath.Join(base, fmt.Sprintf("vcheck-slot-%d", i))
+		for attempt := 0; attempt < 2; attempt++ {
+			if err := os.Mkdir(dir, 0755); err == nil {
+				if err := os.WriteFile(filepath.Join(dir, ".owner"), []byte(strconv.Itoa(os.Getpid())), 0644); err != nil {
+					return "", err
+				}
+				return dir, nil
+			}
+			// taken: by a live process (next slot), or left behind by one that was killed (reclaim, once)
+			b, err := os.ReadFile(filepath.Join(dir, ".owner"))
+			if err != nil {
+				// no owner file: being set up this very moment, or debris; leave it alone unless it is old
+				if st, e := os.Stat(dir); e == nil && time.Since(st.ModTime()) > 10*time.Minute {
+					exec.Command("chmod", "-R", "u+w", dir).Run()
+					os.RemoveAll(dir)
+					continue
+				}
+				break
+			}
+			pid, _ := strconv.Atoi(strings.TrimSpace(string(b)))
+			if pid > 0 && syscall.Kill(pid, 0) == nil {
+				break // alive
+			}
+			exec.Command("chmod", "-R", "u+w", dir).Run()
+			os.RemoveAll(dir)
+		}
+	}
+	return "", fmt.Errorf("no free scratch slot under %s", base)
+}
+
 // prepareScratch assembles the scratch module: go.mod with replaces, scenario
 // packages copied from /verif/scen.
 func prepareScratch(mod string) {
@@ -162,9 +196,16 @@ func prepareScratch(mod string) {
 	if base == "" {
 		base = os.TempDir()
 	}
-	scratch, err = os.MkdirTemp(base, "vcheck-")
+	// The scratch module lives in a numbered slot with a stable path (vcheck-slot-0 for a check that runs alone), not
+	// in a randomly named directory: the Go build cache keys compiled packages by their directory, and a fresh name
+	// per run added some 250 MB to the cache on every single check (93 GB after a day of sweeps). A slot is taken
+	// with mkdir (atomic); one whose owner is dead is reclaimed.
+	scratch, err = claimSlot(base)
 	if err != nil {
-		die(2, "mktemp: %v", err)
+		scratch, err = os.MkdirTemp(base, "vcheck-")
+		if err != nil {
+			die(2, "mktemp: %v", err)
+		}
 	}
 	repl := repoDir + "/v2"
 	modpath := "github.com/PapaCharlie/go-restli/v2"
